@@ -85,8 +85,9 @@ def contains_key(kind, state, cls, expected):
     return f"{prefix}contains-{'accepts' if expected is False else 'rejects'}-{cls}"
 
 
-def judge_contains(ctx, m, space, x, cls, rep, nontrivial=True, attribute=None):
-    """Run the real contains on x and compare with the model.  Returns the violation key or None."""
+def judge_contains(ctx, m, space, x, cls, rep, nontrivial=True, attribute=None, kind=None):
+    """Run the real contains on x and compare with the model.  Returns the violation key or None.
+    kind = kind of the (inner) node the candidate was mutated at, when it is not the root."""
     from vlib.c14_helpers import member, mrepr, xdesc
 
     expected = member(m, x)
@@ -95,15 +96,16 @@ def judge_contains(ctx, m, space, x, cls, rep, nontrivial=True, attribute=None):
              cls=f"contains/{m['k']}/{cls}")
     ctx.monitor("contains_scalar_bool_checked")
     key = None
+    kind = kind or m["k"]
     if state != "ok":
-        key = contains_key(m["k"], state, cls, expected)
+        key = contains_key(kind, state, cls, expected)
     elif expected is None:
         ctx.monitor("contains_ambiguous_not_asserted")
     else:
         ctx.monitor("contains_verdicts_compared")
         ctx.monitor("contains_member_candidates" if expected else "contains_nonmember_candidates")
         if got != expected:
-            key = contains_key(m["k"], state, cls, expected)
+            key = contains_key(kind, state, cls, expected)
     if key is not None:
         if attribute is not None:
             sub = attribute(x)
@@ -621,12 +623,12 @@ def run_nested(ctx, m, space, k):
                 muts.append(("int-keys", OrderedDict((i, v) for i, v in enumerate(sub.values()))))
         for cls, new in muts:
             x = set_value(m, x0, path, new)
-            judge_contains(ctx, m, space, x, cls, "np", attribute=base_attr)
+            judge_contains(ctx, m, space, x, cls, "np", attribute=base_attr, kind=cm["k"])
     # foreign objects where the whole container is expected
     for name, v in _foreign_values() + [("int", 0), ("array", np.zeros(3, np.float32)), ("space-itself", space)]:
         for path in [cps[0]] + ([cps[-1]] if len(cps) > 1 else []):
             x = set_value(m, gen_member(rng, m), path, v)
-            judge_contains(ctx, m, space, x, "foreign-type", name, attribute=base_attr)
+            judge_contains(ctx, m, space, x, "foreign-type", name, attribute=base_attr, kind=get_node(m, path)["k"])
 
 
 def u_contains_nested(ctx):
@@ -1074,6 +1076,8 @@ def mutate_node(rng, node):
                         arr[i] = d
                     else:
                         arr[i] = arr[i] + (np.float32(-1) if which == "low" else np.float32(1)) * (np.abs(arr[i]) + np.float32(1))
+                    if arr[i] != 0 and np.abs(arr[i]) < np.finfo(np.float32).tiny:  # keep out of the subnormal range
+                        arr[i] = np.float32(np.finfo(np.float32).tiny) * (np.float32(-1) if which == "low" else np.float32(1))
                 new = {"k": "box", "low": lo.copy(), "high": hi.copy()}
                 new[which] = arr.reshape(lo.shape)
                 out.append((f"{which}-bound-changed", new))
